@@ -173,7 +173,7 @@ def judge(c, ev_with, ev_without, part):
         spent = [(ctx['amount'], ctx['fund_spk'])] if ctx['nin'] == 1 else None
         checker = TxChecker(ctx['tx'], ctx['idx'], ctx['amount'], spent, leaf_hash=sha256(c['script']) if c['sv'] == TAPSCRIPT else None)
     verdicts = []
-    for mode in ('normal', 'fail') + (('normal+budget', 'fail+budget') if c['sv'] == TAPSCRIPT else ()):
+    for mode in ('normal', 'fail'):
         sess = Session(c['script'], c['stack'], c['flags'], c['sv'], checker=checker, weight=c['weight'], mock=set(c['pairs']), mock_mode=mode)
         if checker:
             checker.last_digest = None
